@@ -38,31 +38,6 @@ theorem reachable_inv {c : Cfg} (hc : WF c) {s : State} (h : Reachable c s) : In
   obtain ⟨sched, rfl⟩ := h
   exact inv_run sched (inv_init c hc.out hc.nw hc.nt)
 
-/-- cancellation / loss is always backed by the destruction of the un-invoked closure -/
-theorem cancelled_le_dropped {c : Cfg} {s : State} (h : Inv c s) (j : Nat) :
-    s.cancelled j + s.lost j ≤ s.dropped j := by
-  have h1 := h.b_co j
-  have h2 := h.b_guard j
-  have h3 := h.b_fut j
-  have h4 := h.b_none j
-  have h5 := h.b_lost j
-  cases hk : dropKind c (s.kind j) with
-  | resume =>
-    have a := h1 hk
-    have b := h5 (by rw [hk]; decide)
-    split at a <;> omega
-  | guard =>
-    have a := h2 hk
-    have b := h5 (by rw [hk]; decide)
-    omega
-  | breakPromise =>
-    have a := h3 hk
-    have b := h5 (by rw [hk]; decide)
-    cases ha : s.armed j with
-    | true => have := a.1 ha; omega
-    | false => have := a.2 ha; omega
-  | nothing => have := h4 hk; omega
-
 /-- **Never twice.** In every reachable state a submission was executed at most once, and executed or
 cancelled/lost at most once in total; its closure was invoked or destroyed at most once. -/
 theorem c11_never_twice {c : Cfg} (hc : WF c) {s : State} (h : Reachable c s) (j : Nat) :
@@ -194,7 +169,7 @@ theorem c11_idle_quiescence {c : Cfg} (hc : WF c) {s : State} (h : Reachable c s
   omega
 
 /-- at quiescence every closure has been invoked or destroyed -/
-theorem quiescent_loc_done {c : Cfg} (hc : WF c) {s : State} (h : Reachable c s) (hst : Stuck c s) (j : Nat)
+theorem c11_quiescent_closure_fate {c : Cfg} (hc : WF c) {s : State} (h : Reachable c s) (hst : Stuck c s) (j : Nat)
     (hj : j < s.nextJob) : s.ran j + s.dropped j = 1 := by
   have hi := reachable_inv hc h
   cases hex : s.exit with
@@ -225,7 +200,7 @@ theorem quiescent_loc_done {c : Cfg} (hc : WF c) {s : State} (h : Reachable c s)
     simpa using h1
 
 /-- at quiescence every thread is finished or asleep in the worker loop -/
-theorem quiescent_pcs {c : Cfg} (hc : WF c) {s : State} (h : Reachable c s) (hst : Stuck c s) (t : Nat) :
+theorem c11_quiescent_threads {c : Cfg} (hc : WF c) {s : State} (h : Reachable c s) (hst : Stuck c s) (t : Nat) :
     s.pc t = Pc.done ∨ s.pc t = Pc.wCvBlocked := by
   have hi := reachable_inv hc h
   by_cases ht : t < c.nt
@@ -247,8 +222,8 @@ theorem c11_outcome_partial {c : Cfg} (hc : WF c) {s : State} (h : Reachable c s
     (hj : j < s.nextJob) (hk : Cancellable c (s.kind j)) :
     s.ran j + s.cancelled j = 1 ∧ (s.exit = false → s.ran j = 1) := by
   have hi := reachable_inv hc h
-  have hrd := quiescent_loc_done hc h hst j hj
-  have hpcs := quiescent_pcs hc h hst
+  have hrd := c11_quiescent_closure_fate hc h hst j hj
+  have hpcs := c11_quiescent_threads hc h hst
   refine ⟨?_, fun hex => (c11_idle_quiescence hc h hst hex).2.2 j hj⟩
   suffices hcd : s.cancelled j = s.dropped j by omega
   unfold Cancellable at hk
@@ -278,7 +253,7 @@ theorem c11_outcome_bare {c : Cfg} (hc : WF c) {s : State} (h : Reachable c s) (
     (hj : j < s.nextJob) (hk : ¬ Cancellable c (s.kind j)) :
     s.ran j + s.lost j = 1 ∧ s.cancelled j = 0 ∧ (s.exit = false → s.ran j = 1) := by
   have hi := reachable_inv hc h
-  have hrd := quiescent_loc_done hc h hst j hj
+  have hrd := c11_quiescent_closure_fate hc h hst j hj
   have hkk : dropKind c (s.kind j) = DropAct.nothing := by
     unfold Cancellable at hk; exact Classical.not_not.1 hk
   have := hi.b_none j hkk
@@ -309,8 +284,8 @@ theorem c11_futures_resolved {c : Cfg} (hc : WF c) {s : State} (h : Reachable c 
     (s.ran j = 0 → s.fut j = Fut.broken ∧ s.valued j = 0 ∧ s.cancelled j = 1) := by
   have hi := reachable_inv hc h
   have hhf := dropKind_bp_hasFut hk
-  have hrd := quiescent_loc_done hc h hst j hj
-  have hpcs := quiescent_pcs hc h hst
+  have hrd := c11_quiescent_closure_fate hc h hst j hj
+  have hpcs := c11_quiescent_threads hc h hst
   have ha : s.armed j = true := by
     cases ha : s.armed j with
     | true => rfl
@@ -382,34 +357,6 @@ theorem c11_destructor_safe {c : Cfg} (hc : WF c) {s : State} (h : Reachable c s
   · rw [hno t] at ht; cases ht
 
 /-! ## From thread-level (baton) runs to schedules of small steps -/
-
-theorem run_append (c : Cfg) (s : State) (a b : List (Nat × Nat)) : run c s (a ++ b) = run c (run c s a) b := by
-  induction a generalizing s with
-  | nil => rfl
-  | cons x xs ih => exact ih (sstep c s x)
-
-/-- one step of a thread under the baton scheduler (what `harness/h_pool.cpp` replays against the real header) is a
-sequence of small steps of that thread -/
-theorem threadStep_is_run (c : Cfg) (fuel : Nat) : ∀ (s : State) (t : Nat),
-    ∃ n, (threadStep c fuel s t).1 = run c s (List.replicate n (t, 0)) := by
-  induction fuel with
-  | zero => intro s t; exact ⟨0, rfl⟩
-  | succ f ih =>
-    intro s t
-    unfold threadStep
-    split
-    · rename_i hen
-      have hs : sstep c s (t, 0) = (step c s t 0).1 := by simp [sstep, hen]
-      split
-      · rename_i s1 e1 heq
-        obtain ⟨n, hn⟩ := ih s1 t
-        refine ⟨n + 1, ?_⟩
-        simp only [List.replicate_succ, run, hs, heq]
-        exact hn
-      · rename_i s1 e1 o _ heq
-        refine ⟨1, ?_⟩
-        simp only [List.replicate_succ, List.replicate_zero, run, hs, heq]
-    · exact ⟨0, rfl⟩
 
 /-- every state the thread-level model (hence the driver that is diffed against the implementation) can produce is a
 reachable state of the small-step model: all theorems above apply to it -/
